@@ -101,11 +101,16 @@ CLAIMED["C01"] = dict(
     "of a block: whatever block comes back from insert/delete lies in the same byte interval (invariant through "
     "split, join, remove, clean-up and the patch placement), so the corrected offset designates the listing "
     "position (theorem loop_is_listing; premises: block ids below the id counter - kept by every operation - and "
-    "patch blocks that are new objects; both are evaluated on every recorded state)."
+    "patch blocks that are new objects; both are evaluated on every recorded state); and apply()'s loop over all "
+    "blocks with requests (IR.applyAll) is the listing edit of every one of them: the requests of one block never "
+    "move, resize or re-home a non-empty block of another byte interval (Frame, through every operation and the "
+    "whole loop), so each later request list finds its block and its bytes as they were, and every interval "
+    "without requests is untouched (theorem all_blocks_are_listing_edits)."
     + EMOD_TIE + " Every iteration of the real loop (block handed over, offset passed, state at the end of the "
-    "iteration) is compared with IR.applyMods. Partial: the alignment padding of join_byte_intervals and the outer "
-    "loop over the blocks of a module (each block has its own byte interval during the rewrite) are covered by the "
-    "oracle and the correspondence, not by a theorem.",
+    "iteration) is compared with IR.applyMods, and the premises of the all-blocks theorem (each edited block in a "
+    "byte interval of its own, inside its initialized bytes) are evaluated on what the loop saw. Partial: the "
+    "alignment padding of join_byte_intervals and the re-joining of the per-block intervals (C10's theorems) are "
+    "tied to this result by the oracle and the correspondence, not by a theorem.",
     technique=EMOD_TECH,
     design="DESIGN.md#c01",
 )
